@@ -343,7 +343,384 @@ class FieldSel(Contract):
         return out
 
 
-CONTRACTS = [MeshSel(), FieldSel()]
+def sub_box(E, m, name, assume, aligned=True):
+    """a region inside mesh m: aligned=True -> whole cells a_j..b_j (integers); False -> arbitrary real corners inside"""
+    pmin, pmax, n = mesh_geometry(m)
+    cell = m.ghost['cell']
+    reg = m.attrs['_region'].attrs
+    d = len(n)
+    if aligned:
+        a = [inp(E, f'{name}_a{j}', 'int') for j in range(d)]
+        b = [inp(E, f'{name}_b{j}', 'int') for j in range(d)]
+        for aj, bj, k in zip(a, b, n):
+            assume += [I(aj) >= 0, I(aj) < I(bj), I(bj) <= I(k)]
+        lo = [E.arith('+', p, E.arith('*', aj, c)) for p, aj, c in zip(pmin, a, cell)]
+        hi = [E.arith('+', p, E.arith('*', bj, c)) for p, bj, c in zip(pmin, b, cell)]
+        ghost = (a, b)
+    else:
+        lo = [inp(E, f'{name}_lo{j}', 'float') for j in range(d)]
+        hi = [inp(E, f'{name}_hi{j}', 'float') for j in range(d)]
+        for l, h, p, q_ in zip(lo, hi, pmin, pmax):
+            assume += [R(l) >= R(p), R(l) < R(h), R(h) <= R(q_)]
+        ghost = None
+    box = Obj('Region', {'_pmin': Vec([E.npscalar(x) for x in lo]), '_pmax': Vec([E.npscalar(x) for x in hi]),
+                         '_dims': reg['_dims'], '_units': reg['_units'], '_tolerance_factor': 1e-12})
+    return box, ghost
+
+
+class Region2Slices(Contract):
+    """mesh.region2slices(region) for a region made of whole cells a_j..b_j: exactly slice(a_j, b_j) per axis"""
+    name = 'Mesh.region2slices'
+    qual = ('Mesh', 'region2slices')
+    func = 'Mesh.region2slices'
+
+    def configs(s, tier):
+        return [{'ndim': d} for d in ND[tier]]
+
+    def pre_state(s, E, cfg):
+        m, assume = sym_mesh(E, cfg['ndim'], tf=1e-12, cellcond=True)
+        box, ghost = sub_box(E, m, 'r', assume)
+        st = State(m, [box], {})
+        st.assume, st.ghost = assume, ghost
+        return st
+
+    def frame(s, E, st):
+        return [('self', st.self), ('region', st.args[0])]
+
+    def post(s, E, st, result):
+        a, b = st.ghost
+        if not isinstance(result, tuple) or len(result) != len(a) or not all(isinstance(x, slice) for x in result):
+            return [('one slice per axis', False)]
+        out = []
+        for j, sl in enumerate(result):
+            out.append((f'axis {j}: slice starts at the first cell of the region', I(sl.start) == I(a[j])))
+            out.append((f'axis {j}: slice stops after the last cell of the region', I(sl.stop) == I(b[j])))
+            out.append((f'axis {j}: unit step', sl.step is None or sl.step == 1))
+        return out
+
+
+class MeshGetitemRegion(Contract):
+    """mesh[region]: the smallest block of whole cells of the mesh that contains the region"""
+    name = 'Mesh.__getitem__[region]'
+    qual = ('Mesh', '__getitem__')
+    func = 'Mesh.__getitem__'
+
+    def configs(s, tier):
+        out = [{'ndim': d, 'box': 'any'} for d in ND[tier]] + [{'ndim': d, 'box': 'aligned'} for d in ND[tier]]
+        return out + [{'ndim': 2, 'box': 'outside'}]
+
+    def pre_state(s, E, cfg):
+        m, assume = sym_mesh(E, cfg['ndim'], tf=1e-12, cellcond=True)
+        if cfg['box'] == 'outside':
+            box, ghost = sub_box(E, m, 'r', assume, aligned=False)
+            # sticks out above pmax on axis 0 by at least 1% of a cell
+            x = inp(E, 'r_x', 'float')
+            assume.append(R(x) >= R(m.ghost['cell'][0]) / 100)
+            box.attrs['_pmax'].elems[0] = E.npscalar(E.arith('+', m.attrs['_region'].attrs['_pmax'].elems[0], x))
+        else:
+            box, ghost = sub_box(E, m, 'r', assume, aligned=(cfg['box'] == 'aligned'))
+        st = State(m, [box], {})
+        st.assume, st.ghost, st.kind = assume, ghost, cfg['box']
+        return st
+
+    def bind(s, E, selfobj, args, kw):
+        st = State(selfobj, args, kw)
+        if not (isinstance(args[0], Obj) and args[0].cls == 'Region'):
+            raise Unsupported('Mesh.__getitem__ use site with a name: C14 contract')
+        st.kind, st.ghost = 'any', None
+        return st
+
+    def requires(s, E, st):
+        pmin, pmax, n = mesh_geometry(st.self)
+        b = st.args[0].attrs
+        return [not st.self.attrs['_subregions']] + [z3.And(R(l) >= R(p), R(l) < R(h), R(h) <= R(q_)) for l, h, p, q_ in zip(b['_pmin'].elems, b['_pmax'].elems, pmin, pmax)]
+
+    def frame(s, E, st):
+        return [('self', st.self), ('region', st.args[0])]
+
+    def raises(s, E, st):
+        return [('ValueError', True)] if st.kind == 'outside' else []
+
+    def post(s, E, st, result):
+        m = st.self
+        if not isinstance(result, Obj) or result.cls != 'Mesh' or result is m:
+            return [('result is a new Mesh', False)]
+        pmin, pmax, n = mesh_geometry(m)
+        rpmin, rpmax, rn = mesh_geometry(result)
+        reg, rreg = m.attrs['_region'].attrs, result.attrs['_region'].attrs
+        cell = m.ghost['cell'] if hasattr(m, 'ghost') else None
+        box = st.args[0].attrs
+        out = [('dims kept', _eq(E, rreg['_dims'], reg['_dims'])), ('units kept', _eq(E, rreg['_units'], reg['_units'])),
+               ('tolerance factor kept', _eq(E, rreg['_tolerance_factor'], reg['_tolerance_factor']))]
+        for j in range(len(n)):
+            c = R(cell[j])
+            L, U, lo, hi = R(rpmin[j]), R(rpmax[j]), R(box['_pmin'].elems[j]), R(box['_pmax'].elems[j])
+            a = lattice_offset(E, rpmin[j], pmin[j], cell[j])
+            out.append((f'axis {j}: cell-aligned with the source (lower face a whole number of cells above pmin)', z3.And(is_int(a), a >= 0)))
+            out.append((f'axis {j}: whole cells of the source size', U - L == R(rn[j]) * c))
+            out.append((f'axis {j}: inside the source region', z3.And(L >= R(pmin[j]), U <= R(pmax[j]))))
+            out.append((f'axis {j}: contains the region', z3.And(L <= lo, hi <= U)))
+            out.append((f'axis {j}: smallest such block (less than one cell of slack on either side)', z3.And(lo < L + c, U - c < hi)))
+            if st.ghost is not None:
+                out.append((f'axis {j}: a region made of whole cells is reproduced exactly', z3.And(L == lo, U == hi, I(rn[j]) == I(st.ghost[1][j]) - I(st.ghost[0][j]))))
+            # the same against the spec function (used by Field.__getitem__): first cell = point2index(lower corner)
+            k0 = cell_of(E, m, box['_pmin'].elems)[j]
+            out.append((f'axis {j}: lower face == pmin + point2index(region.pmin) * cell', L == R(pmin[j]) + z3.ToReal(k0) * c))
+        return out
+
+    def fresh_result(s, E, st):
+        m = st.self
+        pmin, pmax, n = mesh_geometry(m)
+        reg = m.attrs['_region'].attrs
+        d = len(n)
+        rp = [E.fresh('gpmin', 'float', True) for _ in range(d)]
+        rq = [E.fresh('gpmax', 'float', True) for _ in range(d)]
+        rn = [E.fresh('gn', 'int', True) for _ in range(d)]
+        for k in rn:
+            E.assume(I(k) >= 1)
+        # the callee contract of point2index for the spec-function terms used in the post-condition
+        c = Point2Index()
+        p = list(st.args[0].attrs['_pmin'].elems)
+        for label, phi in c.post(E, c.bind(E, m, [tuple(p)], {}), tuple(Sym(t, 'int') for t in cell_of(E, m, p))):
+            if not isinstance(phi, bool):
+                E.assume(phi)
+        rreg = Obj('Region', {'_pmin': Vec(rp), '_pmax': Vec(rq), '_dims': reg['_dims'], '_units': reg['_units'], '_tolerance_factor': reg['_tolerance_factor']})
+        res = Obj('Mesh', {'_region': rreg, '_n': Vec(rn, 'int'), '_bc': '', '_subregions': {}})
+        if hasattr(m, 'ghost'):
+            res.ghost = {'cell': list(m.ghost['cell']), 'sub': {}}
+        return res
+
+
+class FieldGetitemRegion(Contract):
+    """field[region]: field on mesh[region]; every cell carries the value and validity of the source cell at the same position"""
+    name = 'Field.__getitem__[region]'
+    qual = ('Field', '__getitem__')
+    func = 'Field.__getitem__'
+
+    def configs(s, tier):
+        return [{'ndim': d, 'nvdim': nv} for d in ND[tier] for nv in ((3,) if d == 3 and tier == 'quick' else (1, 3))]
+
+    def pre_state(s, E, cfg):
+        d, nv = cfg['ndim'], cfg['nvdim']
+        m, assume = sym_mesh(E, d, prefix='fm', tf=1e-12, cellcond=True)
+        vd = ['p', 'q', 'r'][:nv] if nv > 1 else None
+        f, assume = sym_field(E, d, nv, mesh=m, assume=assume, unit='T', vdims=vd, mapping=(dict(zip(vd, reversed(DIMS[:d]))) if (vd and nv == d) else {}))
+        box, _ = sub_box(E, m, 'r', assume, aligned=False)
+        st = State(f, [box], {})
+        st.assume = assume
+        return st
+
+    def frame(s, E, st):
+        return [('self', st.self), ('region', st.args[0])]
+
+    def post(s, E, st, result):
+        f = st.self
+        m = f.attrs['_mesh']
+        out, ok = field_base(E, result, [f])
+        if not ok:
+            return out
+        rm = result.attrs['_mesh']
+        mg = MeshGetitemRegion()
+        mst = State(m, [st.args[0]], {})
+        mst.kind, mst.ghost = 'any', None
+        out += [('mesh: ' + l, c) for l, c in mg.post(E, mst, rm)]
+        nv = f.attrs['_nvdim']
+        out.append(('number of components kept', result.attrs['_nvdim'] == nv))
+        out += same_meta(E, result, f, unit=True)
+        pmin, pmax, n = mesh_geometry(m)
+        rpmin, rpmax, rn = mesh_geometry(rm)
+        cell = m.ghost['cell']
+        ridx = E.skolem([E.pyscalar(x) for x in rn], 'j')
+        c = E.skolem([nv], 'c')[0]
+        k0 = cell_of(E, m, st.args[0].attrs['_pmin'].elems)
+        src = [E.arith('+', Sym(k, 'int'), j) for k, j in zip(k0, ridx)]
+        for j in range(len(n)):
+            out.append((f'axis {j}: result cell and the source cell it is taken from have the same centre',
+                        R(rpmin[j]) + (R(ridx[j]) + HALF) * R(cell[j]) == R(pmin[j]) + (R(src[j]) + HALF) * R(cell[j])))
+        out.append(('array[j, c] == source.array[cell at the same position, c]', R(result.attrs['_array'].at(E, list(ridx) + [c])) == R(f.attrs['_array'].at(E, list(src) + [c]))))
+        out.append(('valid[j] == source.valid[cell at the same position]', B(result.attrs['_valid'].at(E, list(ridx))) == B(f.attrs['_valid'].at(E, list(src)))))
+        return out
+
+
+class MeshPad(Contract):
+    """mesh.pad({dim: (a, b), ...}): a cells added below and b above per named direction, everything else kept"""
+    name = 'Mesh.pad'
+    qual = ('Mesh', 'pad')
+    func = 'Mesh.pad'
+
+    def configs(s, tier):
+        out = []
+        for d in ND[tier]:
+            out.append({'ndim': d, 'axes': (0,)})
+            if d >= 2:
+                out.append({'ndim': d, 'axes': (d - 1, 0)})
+        return out + [{'ndim': 2, 'axes': (0,), 'bc': 'a'}, {'ndim': 2, 'axes': ('nodim',)}]
+
+    def pre_state(s, E, cfg):
+        m, assume = sym_mesh(E, cfg['ndim'], tf=1e-12, cellcond=True, bc=cfg.get('bc', ''))
+        dims = m.attrs['_region'].attrs['_dims']
+        pw = {}
+        for ax in cfg['axes']:
+            a, b = inp(E, f'pa{ax}', 'int'), inp(E, f'pb{ax}', 'int')
+            assume += [I(a) >= 0, I(b) >= 0]
+            pw[dims[ax] if isinstance(ax, int) else ax] = (a, b)
+        st = s.bind(E, m, [pw], {})
+        st.assume = assume
+        return st
+
+    def bind(s, E, selfobj, args, kw):
+        st = State(selfobj, args, kw)
+        pw = args[0] if args else kw.get('pad_width')
+        dims = selfobj.attrs['_region'].attrs['_dims']
+        st.bad = any(k not in dims for k in pw)
+        st.widths = {dims.index(k): v for k, v in pw.items() if k in dims}
+        return st
+
+    def requires(s, E, st):
+        return [not st.self.attrs['_subregions']] + [z3.And(I(a) >= 0, I(b) >= 0) for a, b in st.widths.values()]
+
+    def frame(s, E, st):
+        return [('self', st.self)]
+
+    def raises(s, E, st):
+        return [('ValueError', True)] if st.bad else []
+
+    def post(s, E, st, result):
+        m = st.self
+        if not isinstance(result, Obj) or result.cls != 'Mesh' or result is m:
+            return [('result is a new Mesh', False)]
+        pmin, pmax, n = mesh_geometry(m)
+        rpmin, rpmax, rn = mesh_geometry(result)
+        reg, rreg = m.attrs['_region'].attrs, result.attrs['_region'].attrs
+        cell = m.ghost['cell']
+        out = [('dims kept', _eq(E, rreg['_dims'], reg['_dims'])), ('units kept', _eq(E, rreg['_units'], reg['_units'])),
+               ('tolerance factor kept', _eq(E, rreg['_tolerance_factor'], reg['_tolerance_factor'])),
+               ('boundary conditions kept', _eq(E, result.attrs.get('_bc'), m.attrs['_bc']))]
+        for j in range(len(n)):
+            a, b = st.widths.get(j, (0, 0))
+            out.append((f'axis {j}: pmin moved down by the requested number of cells', R(rpmin[j]) == R(pmin[j]) - R(a) * R(cell[j])))
+            out.append((f'axis {j}: pmax moved up by the requested number of cells', R(rpmax[j]) == R(pmax[j]) + R(b) * R(cell[j])))
+            out.append((f'axis {j}: cell count grows by exactly the padding (cell size kept)', I(rn[j]) == I(n[j]) + I(a) + I(b)))
+        return out
+
+    def fresh_result(s, E, st):
+        m = st.self
+        pmin, pmax, n = mesh_geometry(m)
+        reg = m.attrs['_region'].attrs
+        cell = m.ghost['cell']
+        rp, rq, rn = [], [], []
+        for j in range(len(n)):
+            a, b = st.widths.get(j, (0, 0))
+            rp.append(E.npscalar(E.to_float(E.arith('-', pmin[j], E.arith('*', a, cell[j])))))
+            rq.append(E.npscalar(E.to_float(E.arith('+', pmax[j], E.arith('*', b, cell[j])))))
+            rn.append(E.npscalar(E.arith('+', E.arith('+', n[j], a), b)))
+        rreg = Obj('Region', {'_pmin': Vec(rp), '_pmax': Vec(rq), '_dims': reg['_dims'], '_units': reg['_units'], '_tolerance_factor': reg['_tolerance_factor']})
+        res = Obj('Mesh', {'_region': rreg, '_n': Vec(rn, 'int'), '_bc': m.attrs['_bc'], '_subregions': {}})
+        res.ghost = {'cell': list(cell), 'sub': {}}
+        return res
+
+
+PAD_MODES = ('constant', 'edge', 'wrap', 'symmetric', 'reflect')
+
+
+def pad_source(E, mode, t, n):
+    """source index (and 'is inside' flag) of np.pad along one axis for the shifted index t = i - before"""
+    lo_ok, hi_ok = E.cmp('>=', t, 0), E.cmp('<', t, n)
+    if mode == 'edge':
+        return E.ite(lo_ok, E.ite(hi_ok, t, E.arith('-', n, 1)), 0), True
+    if mode == 'wrap':
+        return E.arith('%', t, n), True
+    if mode == 'symmetric':
+        return E.ite(lo_ok, E.ite(hi_ok, t, E.arith('-', E.arith('-', E.arith('*', 2, n), 1), t)), E.arith('-', E.neg(t), 1)), True
+    if mode == 'reflect':
+        return E.ite(lo_ok, E.ite(hi_ok, t, E.arith('-', E.arith('-', E.arith('*', 2, n), 2), t)), E.neg(t)), True
+    return E.ite(E.and_(lo_ok, hi_ok), t, 0), E.and_(lo_ok, hi_ok)
+
+
+class FieldPad(Contract):
+    """field.pad({dim: (a, b)}, mode): the padded mesh (Mesh.pad contract); interior cells keep value and validity at
+    their physical position; the halo follows the padding mode (values AND validity)"""
+    name = 'Field.pad'
+    qual = ('Field', 'pad')
+    func = 'Field.pad'
+
+    def configs(s, tier):
+        out = []
+        for d in ND[tier]:
+            for mode in PAD_MODES:
+                if tier == 'quick' and d == 3 and mode in ('symmetric', 'reflect'):
+                    continue
+                out.append({'ndim': d, 'nvdim': 3 if d > 1 else 1, 'axis': d - 1, 'mode': mode})
+        out += [{'ndim': 2, 'nvdim': 1, 'axis': 0, 'mode': 'wrap'}, {'ndim': 2, 'nvdim': 3, 'axis': 0, 'mode': 'constant', 'two': True}]
+        return out
+
+    def pre_state(s, E, cfg):
+        d, nv, ax = cfg['ndim'], cfg['nvdim'], cfg['axis']
+        m, assume = sym_mesh(E, d, prefix='fm', tf=1e-12, cellcond=True)
+        vd = ['p', 'q', 'r'][:nv] if nv > 1 else None
+        f, assume = sym_field(E, d, nv, mesh=m, assume=assume, unit='T', vdims=vd, mapping=(dict(zip(vd, reversed(DIMS[:d]))) if (vd and nv == d) else {}))
+        dims = m.attrs['_region'].attrs['_dims']
+        n = m.attrs['_n'].elems
+        pw = {}
+        for j in ([ax] + ([1 - ax] if cfg.get('two') else [])):
+            a, b = inp(E, f'pa{j}', 'int'), inp(E, f'pb{j}', 'int')
+            assume += [I(a) >= 0, I(b) >= 0]
+            if cfg['mode'] in ('symmetric', 'reflect'):
+                lim = I(n[j]) if cfg['mode'] == 'symmetric' else I(n[j]) - 1
+                assume += [I(a) <= lim, I(b) <= lim]          # one reflection (numpy repeats it for wider halos: not modelled)
+            pw[dims[j]] = (a, b)
+        st = State(f, [pw, cfg['mode']], {})
+        st.assume, st.mode = assume, cfg['mode']
+        st.widths = {dims.index(k): v for k, v in pw.items()}
+        return st
+
+    def frame(s, E, st):
+        return [('self', st.self)]
+
+    def post(s, E, st, result):
+        f = st.self
+        m = f.attrs['_mesh']
+        out, ok = field_base(E, result, [f])
+        if not ok:
+            return out
+        rm = result.attrs['_mesh']
+        mp = MeshPad()
+        mst = mp.bind(E, m, [st.args[0]], {})
+        out += [('mesh: ' + l, c) for l, c in mp.post(E, mst, rm)]
+        nv = f.attrs['_nvdim']
+        out.append(('number of components kept', result.attrs['_nvdim'] == nv))
+        out += same_meta(E, result, f, unit=True)
+        n = [E.pyscalar(x) for x in m.attrs['_n'].elems]
+        rn = [E.pyscalar(x) for x in rm.attrs['_n'].elems]
+        ridx = E.skolem(rn, 'j')
+        c = E.skolem([nv], 'c')[0]
+        src, inside = [], True
+        for j in range(len(n)):
+            a, b = st.widths.get(j, (0, 0))
+            t = E.arith('-', ridx[j], a)
+            if j in st.widths:
+                sj, ins = pad_source(E, st.mode, t, n[j])
+                src.append(sj)
+                inside = E.and_(inside, ins)
+            else:
+                src.append(t)
+        interior = conj([z3.And(I(ridx[j]) >= I(st.widths[j][0]), I(ridx[j]) < I(st.widths[j][0]) + I(n[j])) for j in st.widths])
+        shifted = [E.arith('-', ridx[j], st.widths.get(j, (0, 0))[0]) for j in range(len(n))]
+        ra, rv = result.attrs['_array'], result.attrs['_valid']
+        out.append(('interior: cell j holds the value of source cell j - before (same physical position)',
+                    z3.Implies(interior, R(ra.at(E, list(ridx) + [c])) == R(f.attrs['_array'].at(E, shifted + [c])))))
+        out.append(('interior: validity of source cell j - before', z3.Implies(interior, B(rv.at(E, list(ridx))) == B(f.attrs['_valid'].at(E, shifted)))))
+        val = f.attrs['_array'].at(E, list(src) + [c])
+        vv = f.attrs['_valid'].at(E, list(src))
+        if inside is not True:
+            val = E.ite(inside, val, 0.0)
+            vv = E.ite(inside, vv, False)
+        out.append((f'every cell (halo included) follows padding mode {st.mode!r}: value', R(ra.at(E, list(ridx) + [c])) == R(val)))
+        out.append((f'every cell (halo included) follows padding mode {st.mode!r}: validity', B(rv.at(E, list(ridx))) == B(vv)))
+        return out
+
+
+CONTRACTS = [MeshSel(), FieldSel(), Region2Slices(), MeshGetitemRegion(), FieldGetitemRegion(), MeshPad(), FieldPad()]
 _BY_NAME = {c.name: c for c in CONTRACTS}
 setup_engine = c03.setup_engine
 
@@ -354,12 +731,16 @@ def contract(name):
 
 def contracts_for_use():
     # Mesh.sel is used through its contract by Field.sel (and proved from its body as the first contract of this module)
-    return [RegionInit(), MeshInit(), Point2Index(), FieldInit(), MeshSel()]
+    return [RegionInit(), MeshInit(), Point2Index(), FieldInit(), MeshSel(), MeshGetitemRegion(), MeshPad()]
 
 
 INLINED = ['Mesh._sel_convert_input (inlined into Mesh.sel / Field.sel)', 'Mesh.index2point (inlined: centre = pmin + (i+1/2)*cell cancels syntactically)',
            'Region._dim2index, Region.center/edges/pmin/pmax, Mesh.cell/n', 'util.assemble_index']
-TRUSTED = ['contracts of Region.__init__, Mesh.__init__ (cell path), Mesh.point2index (discharged under C01)']
+TRUSTED = ['contracts of Region.__init__, Mesh.__init__ (cell path), Mesh.point2index (discharged under C01)',
+           'Mesh.point2index is a pure function: at use sites its result is the application of an uninterpreted function of (corners, n, tolerance, point) constrained by its proved post-condition',
+           '[A] np.pad(arr, widths, mode) for modes constant/edge/wrap and single-reflection symmetric/reflect (conformance-tested against numpy on every run: pyvc/npconf.py)',
+           '[A] basic slicing returns views; Field.__init__ copies (contract of Field.__init__, discharged under C03)']
+BOUNDED_IN = ['np.pad modes symmetric / reflect: halo no wider than the array (numpy repeats the reflection for wider halos: not modelled)']
 ASSUMPTIONS = ['tolerance_factor fixed to the default 1e-12; the comparison tolerance is at most 1/1000 of a cell',
                'meshes without subregions in Mesh.sel (clipping of subregions: C14 / bounded tier)']
 MUTANTS = {
@@ -374,6 +755,17 @@ MUTANTS = {
     'field_sel_valid_unsliced_axis': {'module': 'field', 'contract': 'Field.sel', 'config': {'ndim': 2, 'nvdim': 3, 'axis': 1, 'kind': 'value'}, 'expect': 'valid[j]',
                                       'old': '        valid = self.valid[slices[:-1]]\n\n        try:\n            mesh = self.mesh.sel(*args, **kwargs)',
                                       'new': '        valid = self.valid[slices[:-1]]\n        valid = np.ones_like(valid)\n\n        try:\n            mesh = self.mesh.sel(*args, **kwargs)'},
+    'pad_validity_always_constant': {'module': 'field', 'contract': 'Field.pad', 'config': {'ndim': 2, 'nvdim': 3, 'axis': 1, 'mode': 'wrap'}, 'expect': 'validity',
+                                     'old': 'padded_valid = np.pad(self.valid, padding_sequence, mode=mode, **kwargs)', 'new': 'padded_valid = np.pad(self.valid, padding_sequence, mode="constant")'},
+    'mesh_pad_sides_swapped': {'module': 'mesh', 'contract': 'Mesh.pad', 'config': {'ndim': 2, 'axes': (0,)},
+                               'old': 'pmin[axis] -= pad_width[direction][0] * self.cell[axis]', 'new': 'pmin[axis] -= pad_width[direction][1] * self.cell[axis]'},
+    'getitem_upper_index_floor': {'module': 'mesh', 'contract': 'Mesh.__getitem__[region]', 'config': {'ndim': 1, 'box': 'any'},
+                                  'old': 'p2_idx = (np.ceil((item.pmax - self.region.pmin) / self.cell) - 1).astype(int)', 'new': 'p2_idx = (np.floor((item.pmax - self.region.pmin) / self.cell)).astype(int)'},
+    'field_getitem_uses_region_corner_index': {'module': 'field', 'contract': 'Field.__getitem__[region]', 'config': {'ndim': 2, 'nvdim': 3},
+                                               'old': 'index_min = self.mesh.point2index(\n            submesh.index2point((0,) * submesh.region.ndim)\n        )',
+                                               'new': 'index_min = self.mesh.point2index(item.pmin + self.mesh.cell)'},
+    'region2slices_inclusive_stop': {'module': 'mesh', 'contract': 'Mesh.region2slices', 'config': {'ndim': 2},
+                                     'old': 'return tuple(slice(i1[i], i2[i] + 1) for i in range(self.region.ndim))', 'new': 'return tuple(slice(i1[i], i2[i]) for i in range(self.region.ndim))'},
     'plane_keeps_wrong_axis': {'module': 'mesh', 'contract': 'Mesh.sel', 'config': {'ndim': 3, 'axis': 0, 'kind': 'centre'},
                                'old': 'idxs = [i for i in range(self.region.ndim) if i != dim_index]', 'new': 'idxs = [i for i in range(self.region.ndim) if i != self.region.ndim - 1 - dim_index]'},
 }
